@@ -175,9 +175,31 @@ def hash_seed_search(ctx: Ctx) -> None:
             w = B.gen_world(rng, (4, 7))
             B.materialize(w, root, 1_700_000_002)
         outs = []
+        # option values with several members (code sets, lists): their order must not reach the cache records either
+        multi = ["--enable-error-code", "redundant-expr", "--enable-error-code", "truthy-bool", "--enable-error-code", "ignore-without-code",
+                 "--disable-error-code", "no-redef", "--disable-error-code", "name-match", "--always-true", "ZZ_A", "--always-true", "ZZ_B",
+                 "--always-false", "ZZ_C", "--always-false", "ZZ_D"] if i % 2 == 0 else []
+        user = B.USER_PREFIXES + ("main", "cyc_a", "cyc_b", "cyc_c")
         for hs in seeds:
             cdir = os.path.join(base, f"c{hs}")
-            r = B.run_mypy(root, cdir, B.CONFIGS["files-binary"], env_extra={"PYTHONHASHSEED": hs}, scratch=base)
+            r = B.run_mypy(root, cdir, B.CONFIGS["files-binary"] + multi, env_extra={"PYTHONHASHSEED": hs}, scratch=base)
+            # the same build with the JSON format: meta and meta_ex records are compared field by field
+            # (data_mtime is the time the data record was written, not a function of the inputs)
+            jdir = os.path.join(base, f"j{hs}")
+            B.run_mypy(root, jdir, B.CONFIGS["files-json"] + multi, env_extra={"PYTHONHASHSEED": hs}, scratch=base)
+            metas = {}
+            for dp, _, fs in os.walk(jdir):
+                for fn in fs:
+                    rel = os.path.relpath(os.path.join(dp, fn), jdir)
+                    top = rel.split(os.sep)[1] if len(rel.split(os.sep)) > 1 else ""
+                    if (fn.endswith(".meta.json") or fn.endswith(".meta_ex.json")) and top.split(".")[0] in user:
+                        try:
+                            rec = json.load(open(os.path.join(dp, fn)))
+                        except ValueError:
+                            rec = {"unparsable": True}
+                        if isinstance(rec, dict):
+                            rec.pop("data_mtime", None)
+                        metas[rel] = rec
             datas = {}
             for dp, _, fs in os.walk(cdir):
                 for fn in fs:
@@ -185,7 +207,7 @@ def hash_seed_search(ctx: Ctx) -> None:
                     top = rel.split(os.sep)[1] if len(rel.split(os.sep)) > 1 else ""
                     if fn.endswith(".data.ff") and (top.split(".")[0] in B.USER_PREFIXES + ("main", "cyc_a", "cyc_b", "cyc_c")):
                         datas[rel] = open(os.path.join(dp, fn), "rb").read().hex()
-            outs.append({"stdout": r.get("stdout"), "status": r.get("status"),
+            outs.append({"meta": metas, "stdout": r.get("stdout"), "status": r.get("status"),
                          "ifaces": {m: h for m, h in (r.get("ifaces") or {}).items() if m.split(".")[0] in B.USER_PREFIXES + ("main", "cyc_a", "cyc_b", "cyc_c")}, "data": datas})
         files = {os.path.relpath(os.path.join(dp, fn), root): open(os.path.join(dp, fn)).read() for dp, _, fs in os.walk(root) for fn in fs}
         shutil.rmtree(base, ignore_errors=True)
@@ -194,12 +216,13 @@ def hash_seed_search(ctx: Ctx) -> None:
         res = list(ex.map(one, range(n)))
     for files, outs in res:
         ctx.case(("hashseed", sorted(files)), nontrivial=bool(outs[0]["stdout"]))
-        for k in ("stdout", "status", "ifaces", "data"):
+        for k in ("stdout", "status", "ifaces", "data", "meta"):
             vals = {json.dumps(o[k], sort_keys=True) for o in outs}
             if len(vals) > 1:
                 ctx.report({"class": "hash-seed-dependent", "what": k},
                            f"identical invocations under different PYTHONHASHSEED differ in {k}",
-                           {"files": files, "hashseeds": seeds, "values": [o[k] if k != "data" else sorted(o[k]) for o in outs]})
+                           {"files": files, "hashseeds": seeds,
+                            "values": [o[k] if k not in ("data", "meta") else sorted(r for r in o[k] if any(json.dumps(o[k][r], sort_keys=True) != json.dumps(p[k].get(r), sort_keys=True) for p in outs)) for o in outs]})
                 break
 
 
@@ -314,18 +337,23 @@ def history_search(ctx: Ctx) -> None:
         base = os.path.join(ctx.tmp, f"hi{i}")
         worlds = [B.gen_world(rng, (3, 5)) for _ in range(rng.randint(2, 4))]
         jobs = []
+        # flags that only change how diagnostics are shown: the build under test and (often) the earlier ones use them
+        shown = [f for f in (["--show-error-code-links"], ["--show-error-context"], ["--show-column-numbers"], ["--pretty"],
+                             ["--warn-unused-ignores"], ["--show-error-end"]) if rng.random() < 0.5]
+        shown = [x for f in shown for x in f]
         for k, w in enumerate(worlds):
             root = os.path.join(base, f"src{k}")
             B.materialize(w, root, 1_700_000_002)
             last = k == len(worlds) - 1
             # every build reports a missing (misspelled stdlib) import; earlier builds use other options
             with open(os.path.join(root, "zz_extra.py"), "w") as f:
-                f.write("import tomlib\nimport dist_utils\nimport asyncoi\nfrom typing import Optional\ndef f(x: Optional[int]) -> int:\n    return x\n")
+                f.write("import tomlib\nimport dist_utils\nimport asyncoi\nfrom typing import Optional\ndef f(x: Optional[int]) -> int:\n    return x\n"
+                        "f()\nf(1, 2)\nzz_op = 1 + ''\nzz_attr = (1).nope\nzz_idx = [1]['a']\n")
             extra = [] if last else (rng.choice([["--python-version", "3.10"], ["--python-version", "3.14"]]) if k == 0 else
                                      rng.choice([["--python-version", "3.10"], ["--python-version", "3.14"], ["--platform", "win32"],
                                                  ["--no-strict-optional"], ["--strict"], []]))
             jobs.append({"cwd": root, "args": ["--cache-dir", os.path.join(base, f"cc{k}"), "--no-error-summary", "--no-color-output",
-                                               "--no-incremental"] + extra + ["."]})
+                                               "--no-incremental"] + extra + (shown if (last or rng.random() < 0.7) else []) + ["."]})
         # the build under test is the last one; run it alone in a fresh interpreter too
         spec, outp = os.path.join(base, "jobs.json"), os.path.join(base, "out.json")
         json.dump(jobs, open(spec, "w"))
